@@ -21,9 +21,9 @@ RULE = ("edit histories of 1-6 steps (set existing 70%, create 15%, delete 15%) 
         "non-trivial when it executed against >=1 matched scalar; distinct by (document, path, value, step index)")
 ASSUMPTIONS = ["value formatting (quotes, folding) is not compared", "set members as direct targets and key renames via name() are outside the fragment",
                "CPython object sharing of small ints / short strings is what regime N relies on"]
-REACH = [("yamlpath/processor.py", 240, 343, "Processor._apply_change"),
-         ("yamlpath/processor.py", 2640, 2760, "Processor._update_node / recurse"),
-         ("yamlpath/common/nodes.py", 42, 253, "Nodes.make_new_node")]
+REACH = [("yamlpath/processor.py", "_apply_change", "Processor._apply_change"),
+         ("yamlpath/processor.py", "_update_node,recurse", "Processor._update_node / recurse"),
+         ("yamlpath/common/nodes.py", "make_new_node,make_float_node", "Nodes.make_new_node")]
 SIZES = {"quick": 50000, "thorough": 800000}
 REQUIRED_COUNTERS = ["set_steps", "reload_checked", "set_steps_with_aliases"]
 
